@@ -478,3 +478,15 @@ def variants_under(ctx, body, pcs, local):
                     continue
         unknown.append(c)
     return allowed, unknown
+
+
+def shared(ctx, fn, frm, to, *a, **k):
+    """Run another property's rule function as a clause of this one: the obligations it records are relabelled `to` (the clause is a
+    necessary condition of both properties; each check reports it under its own rule id)."""
+    n0 = len(ctx.rep.obligations)
+    r = fn(ctx, *a, **k)
+    for o in ctx.rep.obligations[n0:]:
+        if o['rule'].startswith(frm):
+            o['rule'] = to
+            o['key'] = to + '/' + (o['key'][2:] if o['key'].startswith('R-') else o['key'])
+    return r
